@@ -225,6 +225,25 @@ def components(ctx):
     return comps
 
 
+def run_components(ctx, names=None):
+    """the fault-enumeration sweeps (all, or the named ones); also used by other properties whose files these components exercise"""
+    for comp, bases_fn in make_components(ctx):
+        if names is not None and comp.name not in names:
+            continue
+        ctx.rules.append("%s: %s" % (comp.name, comp.rule))
+        exe, err = vlib.build_harness(ctx, comp.name, comp.harness, comp.srcs, extra=comp.extra, ldflags=comp.ldflags)
+        if exe is None:
+            vlib.process_failures(ctx, comp, [{"kind": "BUILD", "case": [], "index": -1, "detail": {"stderr": err}, "crash": None}])
+            continue
+        bases = vlib.load_corpus("C14", comp.name) + bases_fn(ctx.rng.fork(comp.name), ctx.tier)
+        cases, stats = sweep(ctx, exe, bases, comp.name)
+        ctx.cov["components"].setdefault(comp.name, {}).update(stats)
+        comp.gen = (lambda cs: (lambda rng, tier, mult: cs))(cases)
+        fails = vlib.run_cases(ctx, comp, exe, cases)
+        ctx.cov["components"][comp.name]["cases"] = len(cases)
+        vlib.process_failures(ctx, comp, fails)
+
+
 def check(ctx):
     ctx.assumptions += [
         "only allocations made by library code are counted and failed (a depth flag set around every call into the library, "
@@ -234,19 +253,7 @@ def check(ctx):
     ctx.trusted += ["pmodel (compiled Lean models and monitors)", "harness/h_ds.c, h_allocfail.c, hwrap.h (allocation wrappers, "
                     "white-box state dumps)", "gcc ASan/UBSan as the crash/out-of-bounds detector, the wrappers' live-block table as the leak detector"]
     vlib.proof_audit(ctx, MODULES)
-    for comp, bases_fn in make_components(ctx):
-        ctx.rules.append("%s: %s" % (comp.name, comp.rule))
-        exe, err = vlib.build_harness(ctx, comp.name, comp.harness, comp.srcs, extra=comp.extra, ldflags=comp.ldflags)
-        if exe is None:
-            vlib.process_failures(ctx, comp, [{"kind": "BUILD", "case": [], "index": -1, "detail": {"stderr": err}, "crash": None}])
-            continue
-        bases = vlib.load_corpus(ctx.pid, comp.name) + bases_fn(ctx.rng.fork(comp.name), ctx.tier)
-        cases, stats = sweep(ctx, exe, bases, comp.name)
-        ctx.cov["components"].setdefault(comp.name, {}).update(stats)
-        comp.gen = (lambda cs: (lambda rng, tier, mult: cs))(cases)
-        fails = vlib.run_cases(ctx, comp, exe, cases)
-        ctx.cov["components"][comp.name]["cases"] = len(cases)
-        vlib.process_failures(ctx, comp, fails)
+    run_components(ctx)
     return vlib.finish(ctx, "proof", MODULES,
                        explanation="level 'proof' applies to the components 'containers' and 'events' (Lean models + theorems + "
                                    "lock-step tie); the component 'upper' (network_read/write, netbuf, http, asprintf users) is "
